@@ -18,7 +18,7 @@ ASSUMPTIONS = [
     "finite alphabets for alpha, h/b and planforms; nx<=4, half ny<=4, <=2 surfaces",
     "reference solver oasmc/ref/ref_vlm.py; OpenMDAO/NumPy/SciPy trusted",
 ]
-BOUND = {"quick": "nx<=3, half ny<=3, h/b in {0.1,0.25,1,5}", "thorough": "nx<=4, half ny<=4, h/b in {0.05,0.1,0.25,1,5,20}"}
+BOUND = {"quick": "nx<=3 (+ one planform with nx=4), half ny<=3, h/b in {0.1,0.25,1,5}", "thorough": "nx<=4, half ny<=4, h/b in {0.05,0.1,0.25,1,5,20}"}
 TOL = 1e-9
 SPAN = 8.0
 
@@ -49,6 +49,9 @@ def specs(tier):
             continue
         out.append([dict(pf=pf, nx=nx, ny=ny, side=side, off=None)])
     for side in ["left", "right"]:
+        if tier == "quick":
+            # nx = 4 is the smallest mesh with an interior chordwise panel row
+            out.append([dict(pf="twdi", nx=4, ny=3, side=side, off=None)])
         out.append([dict(pf="swept", nx=3, ny=3, side=side, off=None), dict(pf="rect", nx=2, ny=2, side=side, off=[5.0, 0.0, 0.7], span=3.0, chord=0.8)])
         if tier == "thorough":
             out.append([dict(pf="twdi", nx=2, ny=4, side=side, off=None), dict(pf="swept", nx=3, ny=3, side=side, off=[5.0, 0.0, 0.7], span=3.0, chord=0.8)])
